@@ -295,7 +295,7 @@ def _match_brace(text, open_idx):
     raise ExtractError('unbalanced braces')
 
 
-def rule_r6_body(body, counts, names=('send_message', 'send_msg_display', 'sender\\.send')):
+def rule_r6_body(body, counts, names=('send_message', 'send_msg_display', 'sender\\.send'), extra=None):
     """R6: append the ghost argument `Tracked(outbox)` to calls of the sending functions."""
     for name in names:
         pos = 0
@@ -308,7 +308,7 @@ def rule_r6_body(body, counts, names=('send_message', 'send_msg_display', 'sende
             close_idx = _match_brace(body, open_idx)
             inner = body[open_idx + 1:close_idx]
             sep = '' if inner.rstrip().endswith(',') or not inner.strip() else ', '
-            body = body[:close_idx] + sep + 'Tracked(outbox)' + body[close_idx:]
+            body = body[:close_idx] + sep + (extra or 'Tracked(outbox)') + body[close_idx:]
             counts['R6'] = counts.get('R6', 0) + 1
             pos = close_idx
     return body
@@ -710,6 +710,8 @@ def emit_fn(d, unit, report, canaries):
         sig = fn_after_self(sig, 'state: &mut VolatileState')
     if 'R6' in rules:
         sig = add_params(sig, 'Tracked(outbox): Tracked<&mut Outbox>')
+    if 'R6q' in rules:
+        sig = add_params(sig, 'Tracked(sig): Tracked<&mut Signals>')
     for name, argstr, text in d.sections:
         if name == 'sigadd':
             sig = add_params(sig, argstr)
@@ -744,9 +746,34 @@ def emit_fn(d, unit, report, canaries):
         body = rule_r2_body(body, counts)
     if 'R6' in rules:
         body = rule_r6_body(body, counts)
+    if 'R6q' in rules:
+        body = rule_r6_body(body, counts, names=('quit\\.store',), extra='Tracked(sig)')
     for r in rules:
         if r in RULES_BODY:
             body = RULES_BODY[r](body, counts)
+    for name, argstr, text in d.sections:
+        if name == 'callargs':
+            # calls of a function that received injected parameters (R1 state / R6 outbox / R6q sig) get the matching arguments
+            fn_name, spec = argstr.split(None, 1)
+            pre = [a for a in spec.split(',') if a and not a.startswith('+')]
+            post = [a[1:] for a in spec.split(',') if a.startswith('+')]
+            pos = 0
+            pat = re.compile(r'\.\s*%s\s*\(' % re.escape(fn_name))
+            n_calls = 0
+            while True:
+                m = pat.search(body, pos)
+                if not m:
+                    break
+                open_idx = m.end() - 1
+                close_idx = _match_brace(body, open_idx)
+                inner = body[open_idx + 1:close_idx]
+                new_inner = ', '.join(pre + ([inner.strip().rstrip(',')] if inner.strip() else []) + post)
+                body = body[:open_idx + 1] + new_inner + body[close_idx:]
+                pos = open_idx + 1 + len(new_inner)
+                n_calls += 1
+            if n_calls == 0:
+                raise ExtractError('lost anchor: %s callargs %s: no call found' % (fname, fn_name))
+            counts['Rcall'] = counts.get('Rcall', 0) + n_calls
     for name, argstr, text in d.sections:
         if name == 'ascribe':
             # R12: add a type annotation to a `let` (needed when ghost code mentions the variable before Rust infers its type)
